@@ -13,7 +13,12 @@ theorem parseE_lp (T : Tbl) (f q ts) : parseE T (f+1) q (.lp :: ts) =
     (match parseE T f 0 ts with
       | some (v, .rp :: ts'') => loop T f q v ts''
       | _ => none) := by
-  simp only [parseE]; rfl
+  simp only [parseE]; try rfl
+theorem parseE_pre (T : Tbl) (f q p ts) : parseE T (f+1) q (.pre p :: ts) =
+    (match parseE T f (T.pbp p) ts with
+      | some (v, ts'') => loop T f q (v ++ [.un p]) ts''
+      | none => none) := by
+  simp only [parseE]; try rfl
 theorem parseE_nil (T : Tbl) (f q) : parseE T (f+1) q [] = none := by simp only [parseE]
 theorem parseE_op (T : Tbl) (f q o ts) : parseE T (f+1) q (.op o :: ts) = none := by simp only [parseE]
 theorem parseE_rp (T : Tbl) (f q ts) : parseE T (f+1) q (.rp :: ts) = none := by simp only [parseE]
@@ -23,11 +28,12 @@ theorem loop_op (T : Tbl) (f q l o ts) : loop T (f+1) q l (.op o :: ts) =
         | some (rhs, ts'') => loop T f q (l ++ rhs ++ [.bi o]) ts''
         | none => none
       else some (l, .op o :: ts)) := by
-  simp only [loop]; rfl
+  simp only [loop]; try rfl
 theorem loop_nil (T : Tbl) (f q l) : loop T (f+1) q l [] = some (l, []) := by simp only [loop]
 theorem loop_atom (T : Tbl) (f q l n ts) : loop T (f+1) q l (.atom n :: ts) = some (l, .atom n :: ts) := by simp only [loop]
 theorem loop_lp (T : Tbl) (f q l ts) : loop T (f+1) q l (.lp :: ts) = some (l, .lp :: ts) := by simp only [loop]
 theorem loop_rp (T : Tbl) (f q l ts) : loop T (f+1) q l (.rp :: ts) = some (l, .rp :: ts) := by simp only [loop]
+theorem loop_pre (T : Tbl) (f q l p ts) : loop T (f+1) q l (.pre p :: ts) = some (l, .pre p :: ts) := by simp only [loop]
 
 theorem loop_stop (T : Tbl) (f q l ts) (h : ∀ o ts', ts = .op o :: ts' → T.bp o < q) :
     loop T (f+1) q l ts = some (l, ts) := by
@@ -36,6 +42,7 @@ theorem loop_stop (T : Tbl) (f q l ts) (h : ∀ o ts', ts = .op o :: ts' → T.b
   | .atom _ :: _ => exact loop_atom ..
   | .lp :: _ => exact loop_lp ..
   | .rp :: _ => exact loop_rp ..
+  | .pre _ :: _ => exact loop_pre ..
   | .op o :: ts' =>
     rw [loop_op]
     have := h o ts' rfl
@@ -71,6 +78,16 @@ theorem mono (T : Tbl) : ∀ f,
           | .atom _ :: _ => simp at h
           | .op _ :: _ => simp at h
           | .lp :: _ => simp at h
+          | .pre _ :: _ => simp at h
+      | .pre p :: ts' =>
+        rw [parseE_pre] at h ⊢
+        cases hp : parseE T f (T.pbp p) ts' with
+        | none => simp [hp] at h
+        | some pr =>
+          obtain ⟨v, ts''⟩ := pr
+          rw [hp] at h
+          rw [ihE _ _ _ hp]
+          exact ihL _ _ _ _ h
       | .op _ :: _ => simp [parseE_op] at h
       | .rp :: _ => simp [parseE_rp] at h
     · intro q l ts r h
@@ -92,6 +109,7 @@ theorem mono (T : Tbl) : ∀ f,
       | .atom _ :: _ => rw [loop_atom] at h ⊢; exact h
       | .lp :: _ => rw [loop_lp] at h ⊢; exact h
       | .rp :: _ => rw [loop_rp] at h ⊢; exact h
+      | .pre _ :: _ => rw [loop_pre] at h ⊢; exact h
 
 theorem monoE_le (T : Tbl) {f g q ts r} (h : parseE T f q ts = some r) (hle : f ≤ g) : parseE T g q ts = some r := by
   induction hle with
@@ -104,46 +122,62 @@ theorem monoL_le (T : Tbl) {f g q l ts r} (h : loop T f q l ts = some r) (hle : 
   | step _ ih => exact (mono T _).2 _ _ _ _ ih
 
 /-- operators on one level share associativity (true of any %left/%right table) -/
-def Tbl.Consistent (T : Tbl) : Prop := ∀ o o', T.bp o = T.bp o' → T.rassoc o = T.rassoc o'
+def Tbl.Consistent (T : Tbl) : Prop :=
+  (∀ o o', T.bp o = T.bp o' → T.rassoc o = T.rassoc o') ∧ (∀ o p, T.bp o = T.plevel p → T.rassoc o = T.prassoc p)
 
 /-- the continuation `rest` is not swallowed by the unparenthesised right spine of `e` -/
 def NA (T : Tbl) : PExpr → List PTok → Prop
   | .atom _, _ => True
   | .paren _, _ => True
   | .bin o _ r, rest => (∀ t ts, rest = .op t :: ts → T.bp t < T.next o) ∧ NA T r rest
+  | .pre p e, rest => (∀ t ts, rest = .op t :: ts → T.bp t < T.pbp p) ∧ NA T e rest
 
 /-- the parser's minimum binding power does not exceed the level of an unparenthesised root -/
 def Fits (T : Tbl) (q : Nat) : PExpr → Prop
   | .atom _ => True
   | .paren _ => True
   | .bin o _ _ => q ≤ T.bp o
+  | .pre _ _ => True
 
 theorem wf_mono (T : Tbl) (e : PExpr) (c c' : Nat) (h : c' ≤ c) (hw : WF T c e) : WF T c' e := by
   cases e with
   | atom n => trivial
   | paren e => exact hw
   | bin o l r => exact ⟨Nat.le_trans h hw.1, hw.2.1, hw.2.2⟩
+  | pre p e => exact ⟨Nat.le_trans h hw.1, hw.2⟩
 
 theorem na_of (T : Tbl) (t : Nat) (ts : List PTok) : ∀ (e : PExpr) (c : Nat), WF T c e →
-    (∀ o', c ≤ T.bp o' → T.bp t < T.next o') → NA T e (.op t :: ts) := by
+    (∀ o', c ≤ T.bp o' → T.bp t < T.next o') → (∀ p', c ≤ T.plevel p' → T.bp t < T.pbp p') → NA T e (.op t :: ts) := by
   intro e
   induction e with
-  | atom n => intro c _ _; trivial
-  | paren e _ => intro c _ _; trivial
+  | atom n => intro c _ _ _; trivial
+  | paren e _ => intro c _ _ _; trivial
   | bin o l r _ ihr =>
-    intro c hw h
+    intro c hw h h'
+    have h1 : T.bp o ≤ T.next o := by unfold Tbl.next; split <;> omega
+    have h2 := hw.1
     refine ⟨?_, ?_⟩
     · intro t' ts' heq
-      injection heq with h1 h2
-      injection h1 with h1
-      subst h1
+      injection heq with e1 e2
+      injection e1 with e1
+      subst e1
       exact h o hw.1
     · apply ihr (T.next o) hw.2.2
-      intro o'' hle
-      apply h o''
-      have : T.bp o ≤ T.next o := by unfold Tbl.next; split <;> omega
-      have := hw.1
-      omega
+      · intro o'' hle; apply h o''; omega
+      · intro p'' hle; apply h' p''; omega
+  | pre p e ih =>
+    intro c hw h h'
+    have h1 : T.plevel p ≤ T.pbp p := by unfold Tbl.pbp; split <;> omega
+    have h2 := hw.1
+    refine ⟨?_, ?_⟩
+    · intro t' ts' heq
+      injection heq with e1 e2
+      injection e1 with e1
+      subst e1
+      exact h' p hw.1
+    · apply ih (T.pbp p) hw.2
+      · intro o'' hle; apply h o''; omega
+      · intro p'' hle; apply h' p''; omega
 
 theorem na_rp (T : Tbl) (ts : List PTok) : ∀ (e : PExpr), NA T e (.rp :: ts) := by
   intro e
@@ -151,6 +185,7 @@ theorem na_rp (T : Tbl) (ts : List PTok) : ∀ (e : PExpr), NA T e (.rp :: ts) :
   | atom n => trivial
   | paren e _ => trivial
   | bin o l r _ ihr => exact ⟨fun t ts' h => (by cases h), ihr⟩
+  | pre p e ih => exact ⟨fun t ts' h => (by cases h), ih⟩
 
 theorem na_nil (T : Tbl) : ∀ (e : PExpr), NA T e [] := by
   intro e
@@ -158,6 +193,7 @@ theorem na_nil (T : Tbl) : ∀ (e : PExpr), NA T e [] := by
   | atom n => trivial
   | paren e _ => trivial
   | bin o l r _ ihr => exact ⟨fun t ts' h => (by cases h), ihr⟩
+  | pre p e ih => exact ⟨fun t ts' h => (by cases h), ih⟩
 
 theorem main (T : Tbl) (hT : T.Consistent) : ∀ (e : PExpr) (ctx q : Nat) (rest : List PTok) (res) (g : Nat),
     WF T ctx e → Fits T q e → NA T e rest → loop T g q (val e) rest = some res →
@@ -179,6 +215,22 @@ theorem main (T : Tbl) (hT : T.Consistent) : ∀ (e : PExpr) (ctx q : Nat) (rest
     simp only [toks, List.cons_append, List.nil_append, List.append_assoc]
     rw [parseE_lp, monoE_le T hfi (Nat.le_max_left fi g)]
     exact monoL_le T hl (Nat.le_max_right _ _)
+  | pre p e ih =>
+    intro ctx q rest res g hw _ hna hl
+    obtain ⟨_, hwe⟩ := hw
+    obtain ⟨hhead, hnae⟩ := hna
+    have he1 : loop T 1 (T.pbp p) (val e) rest = some (val e, rest) := loop_stop T 0 _ _ _ hhead
+    have hfite : Fits T (T.pbp p) e := by
+      cases e with
+      | atom _ => trivial
+      | paren _ => trivial
+      | pre _ _ => trivial
+      | bin o2 _ _ => exact hwe.1
+    obtain ⟨fe, hfe⟩ := ih (T.pbp p) (T.pbp p) rest (val e, rest) 1 hwe hfite hnae he1
+    refine ⟨max fe g + 1, ?_⟩
+    simp only [toks, List.cons_append, List.nil_append]
+    rw [parseE_pre, monoE_le T hfe (Nat.le_max_left fe g)]
+    exact monoL_le T hl (Nat.le_max_right _ _)
   | bin o l r ihl ihr =>
     intro ctx q rest res g hw hfit hna hl
     obtain ⟨_, hwl, hwr⟩ := hw
@@ -190,6 +242,7 @@ theorem main (T : Tbl) (hT : T.Consistent) : ∀ (e : PExpr) (ctx q : Nat) (rest
       cases r with
       | atom _ => trivial
       | paren _ => trivial
+      | pre _ _ => trivial
       | bin o2 _ _ => exact hwr.1
     obtain ⟨fr, hfr⟩ := ihr (T.next o) (T.next o) rest (val r, rest) 1 hwr hfitr hnar hr1
     -- the loop step after the left operand
@@ -205,6 +258,7 @@ theorem main (T : Tbl) (hT : T.Consistent) : ∀ (e : PExpr) (ctx q : Nat) (rest
       cases l with
       | atom _ => trivial
       | paren _ => trivial
+      | pre _ _ => trivial
       | bin o1 _ _ =>
         have h1 : T.lctx o ≤ T.bp o1 := hwl.1
         have : T.bp o ≤ T.lctx o := by unfold Tbl.lctx; split <;> omega
@@ -212,17 +266,28 @@ theorem main (T : Tbl) (hT : T.Consistent) : ∀ (e : PExpr) (ctx q : Nat) (rest
         omega
     have hnal : NA T l (.op o :: (toks r ++ rest)) := by
       apply na_of T o _ l (T.lctx o) hwl
-      intro o' hle
-      unfold Tbl.next
-      unfold Tbl.lctx at hle
-      by_cases hro : T.rassoc o
-      · simp only [hro, if_true] at hle
-        split <;> omega
-      · simp [hro] at hle
-        by_cases heq : T.bp o' = T.bp o
-        · have := hT o' o heq
-          rw [this]; simp [hro]; omega
-        · split <;> omega
+      · intro o' hle
+        unfold Tbl.next
+        unfold Tbl.lctx at hle
+        by_cases hro : T.rassoc o
+        · simp only [hro, if_true] at hle
+          split <;> omega
+        · simp [hro] at hle
+          by_cases heq : T.bp o' = T.bp o
+          · have := hT.1 o' o heq
+            rw [this]; simp [hro]; omega
+          · split <;> omega
+      · intro p' hle
+        unfold Tbl.pbp
+        unfold Tbl.lctx at hle
+        by_cases hro : T.rassoc o
+        · simp only [hro, if_true] at hle
+          split <;> omega
+        · simp [hro] at hle
+          by_cases heq : T.bp o = T.plevel p'
+          · have := hT.2 o p' heq
+            rw [← this]; simp [hro]; omega
+          · split <;> omega
     obtain ⟨fl, hfl⟩ := ihl (T.lctx o) q _ res (F+1) hwl hfitl hnal hstep
     refine ⟨fl, ?_⟩
     simpa [toks, List.append_assoc] using hfl
@@ -238,6 +303,7 @@ theorem parenExt_val {t t' : PExpr} (h : ParenExt t t') : val t' = val t := by
   induction h with
   | atom n => rfl
   | bin o _ _ ihl ihr => simp [val, ihl, ihr]
+  | pre p _ ih => simp [val, ih]
   | paren _ ih => simpa [val] using ih
   | wrap _ ih => simpa [val] using ih
 
@@ -245,6 +311,7 @@ theorem parenExt_wf (T : Tbl) {t t' : PExpr} (h : ParenExt t t') : ∀ c, WF T c
   induction h with
   | atom n => intro c hw; exact hw
   | bin o _ _ ihl ihr => intro c hw; exact ⟨hw.1, ihl _ hw.2.1, ihr _ hw.2.2⟩
+  | pre p _ ih => intro c hw; exact ⟨hw.1, ih _ hw.2⟩
   | paren _ ih => intro c hw; exact ih 0 hw
   | wrap _ ih => intro c hw; exact ih 0 (wf_mono T _ c 0 (Nat.zero_le _) hw)
 
